@@ -73,8 +73,12 @@ Proof.
   destruct c as [c|]; intros H; injection H as <- <- <-; reflexivity.
 Qed.
 
+(* positions reachable through a function-like in the head of the loop *)
+Definition head_reach (s : stmt) : list N :=
+  match s with SForHead _ _ _ _ hb _ => reach_l hb | _ => [] end.
+
 Lemma loop_shape_reach s pre b post :
-  loop_shape s = Some (pre, b, post) -> reach s = pos s :: (if may_true pre then reach b else []).
+  loop_shape s = Some (pre, b, post) -> reach s = pos s :: head_reach s ++ (if may_true pre then reach b else []).
 Proof.
   destruct s; cbn [loop_shape]; try discriminate; try (intros H; injection H as <- <- <-; reflexivity).
   destruct c as [c|]; intros H; injection H as <- <- <-; reflexivity.
@@ -174,6 +178,7 @@ Proof.
   - reflexivity.
   - reflexivity.
   - cbn [csem cin cset_T cT]. assumption.
+  - reflexivity.
   - reflexivity.
   - reflexivity.
   - reflexivity.
@@ -332,6 +337,7 @@ Proof.
   - intros p v i ls k H. destruct k as [| [l|] | [l|] | |]; try discriminate; constructor; exact H.
   - intros p n pb b IHb ls k H. destruct k as [| [l|] | [l|] | |]; try discriminate; constructor.
   - intros p pb b IHb ls k H. destruct k as [| [l|] | [l|] | |]; try discriminate; constructor.
+  - intros p gp pb b IHb ls k H. destruct k as [| [l|] | [l|] | |]; try discriminate; constructor.
   - intros p a ls k H. destruct k as [| [l|] | [l|] | |]; try discriminate; constructor; exact H.
   - intros p e ls k H. destruct k as [| [l|] | [l|] | |]; try discriminate; constructor.
   - intros p l ls k H. destruct l as [l|]; destruct k as [| [l'|] | [l'|] | |]; try discriminate.
@@ -356,6 +362,7 @@ Proof.
   - intros p c b IHb ls k H. destruct c as [c|]; (eapply loop_csem_exec; [reflexivity | apply IHb | exact H]).
   - intros p b IHb ls k H. eapply loop_csem_exec; [reflexivity | apply IHb | exact H].
   - intros p b IHb ls k H. eapply loop_csem_exec; [reflexivity | apply IHb | exact H].
+  - intros p g fp pb hb IHh b IHb ls k H. eapply loop_csem_exec; [reflexivity | apply IHb | exact H].
   - (* switch *) intros p cs [IH1 IH2] ls k H. cbn [csem] in H.
     destruct k as [| [l|] | [l|] | |]; cbn [cin cN cR cT cB0 cC0 cBL cCL] in H; try discriminate.
     + rewrite !orb_true_iff in H. destruct H as [[H|H]|H].
@@ -422,11 +429,13 @@ Proof.
   - intros s. destruct s; left; reflexivity.
   - intros p n pb b pi _ IH. right. exact IH.
   - intros p pb b pi _ IH. right. exact IH.
+  - intros p gp pb b pi _ IH. right. exact IH.
+  - intros p g fp pb hb b pi _ IH. right. apply in_or_app. left. exact IH.
   - intros p b pi _ IH. right. exact IH.
   - intros p c a pi Hc _ IH. right. rewrite Hc. exact IH.
   - intros p c a b pi Hc _ IH. right. apply in_or_app. left. rewrite Hc. exact IH.
   - intros p c a b pi Hc _ IH. right. apply in_or_app. right. rewrite Hc. exact IH.
-  - intros s pre b post pi Hs Hpre _ IH. rewrite (loop_shape_reach _ _ _ _ Hs). right. rewrite Hpre. exact IH.
+  - intros s pre b post pi Hs Hpre _ IH. rewrite (loop_shape_reach _ _ _ _ Hs). right. apply in_or_app. right. rewrite Hpre. exact IH.
   - intros p cs pi _ IH. right. exact IH.
   - intros p l b pi _ IH. right. exact IH.
   - intros p bp blk h hb f fb pi _ IH. right. apply in_or_app. left. exact IH.
@@ -447,10 +456,12 @@ Qed.
 
 Lemma loop_reach_enters s pre b post pi :
   loop_shape s = Some (pre, b, post) ->
+  (forall pi, In pi (head_reach s) -> enters s pi) ->
   (forall pi, In pi (reach b) -> enters b pi) ->
   In pi (reach s) -> enters s pi.
 Proof.
-  intros Hs IH. rewrite (loop_shape_reach _ _ _ _ Hs). intros [<- | H]; [apply N_self|].
+  intros Hs IHh IH. rewrite (loop_shape_reach _ _ _ _ Hs). intros [<- | H]; [apply N_self|].
+  apply in_app_or in H. destruct H as [H | H]; [apply IHh; exact H|].
   destruct (may_true pre) eqn:Hpre; [|destruct H].
   eapply N_loop; [exact Hs | exact Hpre | apply IH; exact H].
 Qed.
@@ -466,6 +477,7 @@ Proof.
   - intros p v i pi [<- | []]. apply (N_self (SVar p v i)).
   - intros p n pb b IHb pi [<- | H]; [apply (N_self (SFnDecl p n pb b)) | apply N_fndecl; apply IHb; exact H].
   - intros p pb b IHb pi [<- | H]; [apply (N_self (SArrowStmt p pb b)) | apply N_arrow; apply IHb; exact H].
+  - intros p gp pb b IHb pi [<- | H]; [apply (N_self (SGetterStmt p gp pb b)) | apply N_getter; apply IHb; exact H].
   - intros p a pi [<- | []]. apply (N_self (SRet p a)).
   - intros p e pi [<- | []]. apply (N_self (SThrow p e)).
   - intros p l pi [<- | []]. apply (N_self (SBrk p l)).
@@ -477,11 +489,13 @@ Proof.
     apply in_app_or in H. destruct H as [H|H].
     + destruct (may_true c) eqn:Hc; [|destruct H]. apply N_ifelse_then; [exact Hc | apply IHa; exact H].
     + destruct (may_false c) eqn:Hc; [|destruct H]. apply N_ifelse_else; [exact Hc | apply IHb; exact H].
-  - intros p c b IHb pi H. eapply loop_reach_enters; [reflexivity | exact IHb | exact H].
-  - intros p b IHb c pi H. eapply loop_reach_enters; [reflexivity | exact IHb | exact H].
-  - intros p c b IHb pi H. destruct c as [c|]; (eapply loop_reach_enters; [reflexivity | exact IHb | exact H]).
-  - intros p b IHb pi H. eapply loop_reach_enters; [reflexivity | exact IHb | exact H].
-  - intros p b IHb pi H. eapply loop_reach_enters; [reflexivity | exact IHb | exact H].
+  - intros p c b IHb pi H. eapply loop_reach_enters; [reflexivity | intros pi' [] | exact IHb | exact H].
+  - intros p b IHb c pi H. eapply loop_reach_enters; [reflexivity | intros pi' [] | exact IHb | exact H].
+  - intros p c b IHb pi H. destruct c as [c|]; (eapply loop_reach_enters; [reflexivity | intros pi' [] | exact IHb | exact H]).
+  - intros p b IHb pi H. eapply loop_reach_enters; [reflexivity | intros pi' [] | exact IHb | exact H].
+  - intros p b IHb pi H. eapply loop_reach_enters; [reflexivity | intros pi' [] | exact IHb | exact H].
+  - intros p g fp pb hb IHh b IHb pi H.
+    eapply loop_reach_enters; [reflexivity | intros pi' H'; apply N_forhead; apply IHh; exact H' | exact IHb | exact H].
   - intros p cs IH pi [<- | H]; [apply (N_self (SSwitch p cs)) | apply N_switch; apply IH; exact H].
   - intros p l b IHb pi [<- | H]; [apply (N_self (SLabel p l b)) | apply N_label; apply IHb; exact H].
   - intros p bp blk IHb h hb IHh f fb IHf pi [<- | H]; [apply (N_self (STry p bp blk h hb f fb))|].
